@@ -68,15 +68,67 @@ def _count_facts(interp, f, ch, t):
         st.axiom(z3.Implies(z3.Length(t) == 1, f(t) == z3.If(t == c, 1, 0)))
 
 
+# "every character satisfies P" for the character-class predicates of str: an additive measure into
+# (Bool, and).  s.isspace() is  s != '' and all_isspace(s)  (the empty string satisfies `all` vacuously).
+ALL_PREDS = {'isspace': True, 'isdigit': True, 'isalpha': True, 'isalnum': True, 'isdecimal': True,
+             'isnumeric': True, 'isprintable': False, 'isascii': False}      # name -> "and non-empty"
+
+
+def _all_fns(interp):
+    return interp.st.ghost.setdefault('__all_fns__', {})
+
+
+def _all_lit(name, sv):
+    return all(getattr(c, name)() for c in sv)
+
+
+def all_fn(interp, name):
+    fns = _all_fns(interp)
+    f = fns.get(name)
+    if f is None:
+        f = z3.Function('all_' + name, z3.StringSort(), z3.BoolSort())
+        fns[name] = f
+        interp.st.axiom(f(z3.StringVal('')))
+        for whole, parts in list(interp.st.ghost.get('__concats__', [])):
+            note_concat(interp, whole, parts, only=('all', name))
+    return f
+
+
+def all_term(interp, t, name):
+    """`every character of t satisfies str.<name>` as a boolean term, tied to the known pieces of t"""
+    st = interp.st
+    if z3.is_string_value(t):
+        return z3.BoolVal(_all_lit(name, _lit(t)))
+    f = all_fn(interp, name)
+    tn = norm(interp, t)
+    if not tn.eq(t):
+        st.assume(f(t) == f(tn))      # t == tn holds in the current context
+    fl = _flat_concat(tn)
+    if len(fl) > 1:
+        note_concat(interp, tn, fl, only=('all', name))
+    elif z3.is_string_value(tn):
+        st.assume(f(t) == _all_lit(name, _lit(tn)))
+    return f(t)
+
+
 def note_concat(interp, whole, parts, only=None):
-    """whole == concat(parts): instantiate additivity of every active counting function."""
+    """whole == concat(parts): instantiate additivity of every active measure (counting functions,
+    character-class predicates)."""
     if only is None:
         interp.st.ghost.setdefault('__concats__', []).append((whole, list(parts)))
+    st = interp.st
+    cat = z3.Concat(*parts) if len(parts) > 1 else parts[0]
+    for name, f in _all_fns(interp).items():
+        if only is not None and only != ('all', name):
+            continue
+        vals = [z3.BoolVal(_all_lit(name, _lit(p))) if z3.is_string_value(p) else f(p) for p in parts]
+        add = f(whole) == (z3.And(*vals) if len(vals) > 1 else vals[0])
+        st.axiom(add if whole.eq(cat) else z3.Implies(whole == cat, add))
+    if isinstance(only, tuple):
+        return
     fns = _count_fns(interp)
     if not fns:
         return
-    st = interp.st
-    cat = z3.Concat(*parts) if len(parts) > 1 else parts[0]
     for ch, f in fns.items():
         if only is not None and ch != only:
             continue
@@ -616,9 +668,12 @@ def _strip(interp, s, chars, left, right):
 
 def _upred(interp, name, s):
     """uninterpreted character-class predicate (isalnum, isspace, ...): consistent, otherwise unknown"""
-    f = z3.Function('str.' + name, z3.StringSort(), z3.BoolSort())
     t = _s(s)
     st = interp.st
+    if name in ALL_PREDS:
+        a = all_term(interp, t, name)
+        return wrap(z3.And(z3.Length(t) > 0, a) if ALL_PREDS[name] else a)
+    f = z3.Function('str.' + name, z3.StringSort(), z3.BoolSort())
     st.axiom(z3.Not(f(z3.StringVal(''))))
     return wrap(f(t))
 
@@ -677,7 +732,7 @@ def call_method(interp, recv, name, args, kwargs):
             return wrap(count_term(interp, t, sub))
         raise Unsupported('count of a non-single-character')
     if name in ('isspace', 'isalnum', 'isdigit', 'isalpha', 'isidentifier', 'isupper', 'islower', 'isnumeric',
-                'isdecimal', 'isprintable'):
+                'isdecimal', 'isprintable', 'isascii'):
         return _upred(interp, name, recv)
     if name in ('upper', 'lower', 'casefold', 'title', 'capitalize', 'swapcase', 'expandtabs'):
         f = z3.Function('str.' + name, z3.StringSort(), z3.StringSort())
